@@ -49,6 +49,7 @@ structure St (α : Type) where
   closed : Bool := false
   closeErrSet : Bool := false        -- the winning Close has stored its error (possibly nil)
   ctxDone : Bool := false
+  parentDone : Bool := false         -- the parent (bootstrap) context was cancelled: c.ctx is done although nobody closed the channel yet
   trClosed : Bool := false
   broken : Bool := false             -- ghost: the transport was closed or a transport call failed
   lockHeld : Bool := false
@@ -74,6 +75,7 @@ structure St (α : Type) where
 
 inductive Act (α : Type) where
   -- write calls
+  | parentCancel               -- the context the channel was derived from is cancelled
   | beginWrite                 -- entry check `closedError() == nil` passed
   | rejectWrite                -- entry check failed: the call returns the close error
   | enqueue (p : α)            -- select: `c.writeQueue <- packet`
@@ -98,15 +100,16 @@ def batchCap (s : St α) : Nat := s.cap / 2 + 1
 
 /-- one step; `none` = the action is not enabled in `s` -/
 def step (s : St α) : Act α → Option (St α)
-  | .beginWrite => if s.closed then none else some { s with inflight := s.inflight + 1 }
-  | .rejectWrite => if s.closed then some s else none
+  | .parentCancel => some { s with parentDone := true }
+  | .beginWrite => if s.closed || s.parentDone then none else some { s with inflight := s.inflight + 1 }
+  | .rejectWrite => if s.closed || s.parentDone then some s else none
   | .enqueue p =>
     if !s.sync && s.inflight > 0 && s.q.length < s.cap then
       some { s with q := s.q ++ [p], accepted := s.accepted ++ [p], pendingCas := s.pendingCas + 1, inflight := s.inflight - 1 }
     else none
   | .noSpace => if !s.sync && s.inflight > 0 && !s.untilW && s.q.length = s.cap then some { s with inflight := s.inflight - 1 } else none
   | .abortCtx => if !s.sync && s.inflight > 0 then some { s with inflight := s.inflight - 1 } else none
-  | .abortClosed => if !s.sync && s.inflight > 0 && s.ctxDone then some { s with inflight := s.inflight - 1 } else none
+  | .abortClosed => if !s.sync && s.inflight > 0 && (s.ctxDone || s.parentDone) then some { s with inflight := s.inflight - 1 } else none
   | .casWriter =>
     if s.pendingCas = 0 then none
     else if s.running then some { s with pendingCas := s.pendingCas - 1 }
